@@ -808,6 +808,23 @@ def c04Step (sin sobs : Json) : Option String :=
            | _, _ => some "auto-accept did not update the followers collection exactly once")
         else (if !followersUpd.isEmpty then some "auto-reject changed a stored collection" else none)
       | ds => some s!"the automatic answer was delivered {ds.length} times"
+  else if ty == "Accept" then
+    -- following changes only for a verified Accept (a stored Follow of this actor naming every accepting actor) …
+    match monRun (AV.Spec.C06.acceptMon facts v) {} phase with
+    | .error (i, what) => some s!"event {i} ({what}): an Accept that is not verified (a stored Follow of this actor naming every accepting actor) changed the following collection"
+    | .ok _ =>
+      if !succeeded then none else
+      let acceptActors := match Val.prop facts v "actor" with
+        | some xs => (match Val.idsOf facts xs with | .ok ids => ids | .error _ => [])
+        | none => []
+      -- … and then gains exactly the accepting actors, at the front
+      match phase.filter (fun e => e.name == "update"), phase.find? (fun e => e.name == "following") with
+      | [], _ => none
+      | [u], some f =>
+        let old := itemsOf (J.norm (toJ (jget f.resp "ok")))
+        if itemsOf (evArgJ u) == (acceptActors.reverse.map J.str) ++ old then none
+        else some "a verified Accept did not put exactly its actors in front of the following collection"
+      | _, _ => some "an Accept updated more than the following collection once"
   else none
 where fedDefaultsD : List String := ["Create", "Update", "Delete", "Follow", "Accept", "Reject", "Add", "Remove", "Like", "Announce", "Undo", "Block"]
 
